@@ -562,9 +562,8 @@ func c07r5(c *Ctx) {
 			isLockedFns = append(isLockedFns, m.Obj)
 		}
 	}
-	if len(isLockedFns) == 0 {
-		ir.Fail("no bool method reads SingleAddressWallet.locked (reservation test)")
-	}
+	// (none is left as a call when the test is written out or fully expanded; the loops are then recognised by
+	// their direct read of the reservation map)
 	// stored-element variables: second result of UnspentSiacoinElements; parameters fed with such a variable
 	stored := map[types.Object]bool{}
 	for _, m := range methods {
@@ -624,13 +623,26 @@ func c07r5(c *Ctx) {
 					}
 				}
 			}
-			// 2. pool-spent membership with the element's id
+			// (the reservation test written out: a read of the reservation map keyed by the element)
+			ir.Walk(rs.Body, false, func(y ast.Node) {
+				if ix, ok := y.(*ast.IndexExpr); ok && m.FieldOf(ix.X) == locked && m.MentionsObj(ix.Index, false, elem) {
+					has1 = true
+				}
+			})
+			// 2. pool-spent membership with the element's id: a lookup in a local set (map[id]bool, map[id]struct{} …)
 			has2 := false
 			ir.Walk(rs.Body, false, func(y ast.Node) {
-				if ix, ok := y.(*ast.IndexExpr); ok && m.MentionsObj(ix.Index, false, elem) {
+				if ix, ok := y.(*ast.IndexExpr); ok && m.MentionsObj(ix.Index, false, elem) && m.FieldOf(ix.X) == nil {
 					if mt, ok := m.TypeOf(ix.X).Underlying().(*types.Map); ok {
-						if b, ok := mt.Elem().Underlying().(*types.Basic); ok && b.Kind() == types.Bool {
-							has2 = true
+						switch e := mt.Elem().Underlying().(type) {
+						case *types.Basic:
+							if e.Kind() == types.Bool {
+								has2 = true
+							}
+						case *types.Struct:
+							if e.NumFields() == 0 {
+								has2 = true
+							}
 						}
 					}
 				}
